@@ -6,11 +6,40 @@ Translated expressions:               getRef's `received_count += 1` (both track
                                       the first clid / request id (itertools.count(n))
 Shape facts (fail closed):            what is looked up by what, what is deleted by what key, which tables finish()
                                       empties, which function resolves your-reference / call targets.
+
+FORMS ACCEPTED AS THE SAME SHAPE (robustness round).  Before a function body is compared with its expected shape it is
+canonicalised by the rewrites below.  R1, R2, R5 are equivalences for ALL inputs.  R3, R4, R6 hold under a side condition
+about the package that is CHECKED syntactically on every run (whole package except foolscap/test); when the side condition
+cannot be established the rewrite is not applied and the shape comparison fails closed as before.
+
+ R1  `if not not X:`  ==  `if X:`.   `not not X` is bool(X): X is evaluated once and its truth value taken once, in both.
+ R2  `V = E` immediately followed by `if V: ...`, V a local name that occurs nowhere else in the function
+       ==  `if E: ...`.   E is evaluated at the same point, its value is only tested for truth, the binding is dead.
+ R3  `self.A.get(k)`  ==  `self.A.get(k, None)`  when is_dict_attr(A): every store to an attribute named A anywhere in the
+       package is `<x>.A = {}` (a dict display), so self.A is a builtin dict, whose get() has default None.
+ R4  `K = tracker.A` (K a local assigned exactly once, `tracker` a parameter / local that is never re-bound) and later uses
+     of K  ==  `tracker.A` written out at each use,  when the function is straight-line (no loop/try/with), K is not used
+     before its assignment, and is_frozen_tracker_attr(A): in the tracker classes (and classes derived from them) A is not
+     defined at class level, is stored to only as `self.A = ...` inside `__init__`, never deleted; nothing in the package
+     stores to `<not self>.A`; no class defines __getattribute__/__setattr__/__delattr__; no setattr/delattr names A; and no
+     dynamic store (setattr with a computed name, __dict__) can reach a tracker instance (dynamic_store_may_hit: such stores
+     occur only through `self` inside classes unrelated to the trackers).  Then reading tracker.A has
+     no side effect and yields the same value however often and whenever it is read during the function, so reading it once
+     into a local or re-reading it (also across the intervening dict operations) is the same.  (This is the model's
+     standing assumption about t_clid anyway: a tracker's clid/url/puid never change.)
+ R5  statements that only assert (an `assert`, or an `if` without else whose body is only asserts) are not part of a shape:
+     `if c: assert t`  ==  `assert (not c) or t`  for all inputs; the model has no assertion failures for argument types.
+ R6  `self.M()` where M is, package-wide, only ever defined as a method whose body is the single statement `return <E>`
+     (E mentioning no local but self), never stored to as an attribute: resolved by the MRO of the concrete class being
+     read, and replaced by E.  A method a class does not define itself is read from its (single) base class.
 """
 import ast, copy
 from translate import pylite as P
 
 PROPERTIES = ["C08", "C09"]
+# R3, R4, R6 rely on facts about the package that are checked syntactically (see docstring); set to False to fall back to
+# the purely type-free rewrites R1, R2, R5 (the forms needing R3/R4/R6 then fail closed again)
+TYPED_REWRITES = True
 OUTPUTS = ["RefsGen.v"]
 
 
@@ -26,6 +55,349 @@ def body_stmts(fn, keep_asserts=False):
             continue
         out.append(st)
     return out
+
+
+# ---------------------------------------------------------------------------------------------------------------
+# package-wide side conditions (R3, R4, R6)
+_PKG = None
+
+
+def package_modules():
+    global _PKG
+    if _PKG is None:
+        import os
+        _PKG = []
+        for root, dirs, files in os.walk(P.SRC):
+            dirs[:] = [d for d in dirs if d != "test"]
+            for f in sorted(files):
+                if f.endswith(".py"):
+                    rel = os.path.relpath(os.path.join(root, f), P.SRC)
+                    try:
+                        _PKG.append((rel, ast.parse(open(os.path.join(root, f)).read())))
+                    except SyntaxError:
+                        raise P.Untranslatable("cannot parse %s" % rel)
+    return _PKG
+
+
+def is_dict_attr(name):
+    """every store to an attribute called `name` in the package is `<x>.name = {}`; nothing dynamic could store to it"""
+    n_stores = 0
+    for rel, mod in package_modules():
+        for n in ast.walk(mod):
+            targets = []
+            if isinstance(n, ast.Assign):
+                targets = n.targets
+            elif isinstance(n, (ast.AugAssign, ast.AnnAssign)):
+                targets = [n.target]
+            elif isinstance(n, ast.Delete):
+                targets = n.targets
+            elif isinstance(n, (ast.For, ast.With)):
+                targets = [x for x in ast.walk(n.target)] if isinstance(n, ast.For) else []
+            for t in targets:
+                for a in ast.walk(t):
+                    if isinstance(a, ast.Attribute) and a.attr == name and isinstance(a.ctx, (ast.Store, ast.Del)):
+                        if not (isinstance(n, ast.Assign) and len(n.targets) == 1 and a is n.targets[0]
+                                and isinstance(n.value, ast.Dict) and not n.value.keys):
+                            return False
+                        n_stores += 1
+            if isinstance(n, ast.ClassDef):
+                for st in n.body:
+                    if isinstance(st, (ast.FunctionDef, ast.ClassDef)) and st.name == name:
+                        return False
+                    if isinstance(st, ast.Assign) and any(isinstance(t, ast.Name) and t.id == name for t in st.targets):
+                        return False
+    return n_stores > 0 and not any(_uses_setattr_on(mod, name) for rel, mod in package_modules()) \
+        and not dynamic_store_may_hit(class_family(BROKER_CLASSES))
+
+
+def class_family(names):
+    """simple names of the package classes related by inheritance (ancestors or descendants) to any of `names`"""
+    graph = {}
+    for rel, mod in package_modules():
+        for c in ast.walk(mod):
+            if isinstance(c, ast.ClassDef):
+                graph.setdefault(c.name, set()).update(ast.unparse(b).split(".")[-1] for b in c.bases)
+    fam = set(names)
+    changed = True
+    while changed:
+        changed = False
+        for c, bases in graph.items():
+            if c in fam and not bases <= fam:
+                fam |= bases
+                changed = True
+            if c not in fam and bases & set(names) or (c not in fam and any(b in fam and b in graph and _descends(graph, b, names) for b in bases)):
+                fam.add(c)
+                changed = True
+    return fam
+
+
+def _descends(graph, c, names, seen=None):
+    seen = seen or set()
+    if c in names:
+        return True
+    if c in seen:
+        return False
+    seen.add(c)
+    return any(_descends(graph, b, names, seen) for b in graph.get(c, ()))
+
+
+def dynamic_store_may_hit(family):
+    """could a dynamic attribute store (setattr/delattr with a computed name, anything through __dict__) reach an instance of
+    a class of `family`?  Such a store through `self` inside a class outside the family only reaches that class's own
+    instances; `x.__dict__.copy()` creates no alias.  Everything else counts as a possible hit (fail closed)."""
+    for rel, mod in package_modules():
+        parents = {}
+        for n in ast.walk(mod):
+            for ch in ast.iter_child_nodes(n):
+                parents[id(ch)] = n
+
+        def enclosing_class(n):
+            while id(n) in parents:
+                n = parents[id(n)]
+                if isinstance(n, ast.ClassDef):
+                    return n.name
+            return None
+        for n in ast.walk(mod):
+            recv = None
+            if isinstance(n, ast.Call) and isinstance(n.func, ast.Name) and n.func.id in ("setattr", "delattr") and len(n.args) >= 2 \
+                    and not isinstance(n.args[1], ast.Constant):
+                recv = n.args[0]
+            elif isinstance(n, ast.Attribute) and n.attr == "__dict__":
+                par = parents.get(id(n))
+                gp = parents.get(id(par)) if par is not None else None
+                if isinstance(par, ast.Attribute) and par.attr == "copy" and isinstance(gp, ast.Call) and gp.func is par:
+                    continue
+                recv = n.value
+            if recv is None:
+                continue
+            cls = enclosing_class(n)
+            if isinstance(recv, ast.Name) and recv.id == "self" and cls is not None and cls not in family:
+                continue
+            return True
+    return False
+
+
+BROKER_CLASSES = ("Broker",)
+
+
+def _uses_setattr_on(mod, name):
+    """setattr/delattr naming exactly this attribute as a literal"""
+    for n in ast.walk(mod):
+        if isinstance(n, ast.Call) and isinstance(n.func, ast.Name) and n.func.id in ("setattr", "delattr"):
+            if len(n.args) >= 2 and isinstance(n.args[1], ast.Constant) and n.args[1].value == name:
+                return True
+    return False
+
+
+# receiveChild of the unslicers stores self.clid / self.url on UNSLICER objects; trackers are what R4 is about.  Those
+# stores would make the package-wide test fail, so R4 is asked about an attribute *of the tracker classes*: stores through
+# `self` inside classes that are neither a tracker class nor derived from one do not count.
+TRACKER_CLASSES = ("ReferenceableTracker", "RemoteReferenceTracker", "RemoteMethodReferenceTracker")
+
+
+def is_frozen_tracker_attr(name):
+    def derives(cls, classes):
+        return cls.name in TRACKER_CLASSES or any(ast.unparse(b).split(".")[-1] in TRACKER_CLASSES for b in cls.bases)
+    if dynamic_store_may_hit(class_family(TRACKER_CLASSES)):
+        return False
+    n_init = 0
+    for rel, mod in package_modules():
+        if _uses_setattr_on(mod, name):
+            return False
+        for cls in [c for c in ast.walk(mod) if isinstance(c, ast.ClassDef)]:
+            tracker = derives(cls, None)
+            for st in cls.body:
+                if isinstance(st, (ast.FunctionDef, ast.ClassDef)) and st.name in ("__getattribute__", "__setattr__", "__delattr__"):
+                    return False
+                if tracker and isinstance(st, (ast.FunctionDef, ast.ClassDef)) and st.name == name:
+                    return False
+                if tracker and isinstance(st, ast.Assign) and any(isinstance(t, ast.Name) and t.id == name for t in st.targets):
+                    return False
+            for f in [x for x in cls.body if isinstance(x, ast.FunctionDef)]:
+                for n in ast.walk(f):
+                    if isinstance(n, ast.Attribute) and n.attr == name and isinstance(n.ctx, (ast.Store, ast.Del)):
+                        on_self = isinstance(n.value, ast.Name) and n.value.id == "self"
+                        if on_self and not tracker:
+                            continue            # another class's own attribute of the same name
+                        if not (on_self and tracker and f.name == "__init__" and isinstance(n.ctx, ast.Store)):
+                            return False
+                        n_init += 1
+        # stores outside any class
+        for n in mod.body:
+            if not isinstance(n, ast.ClassDef):
+                for a in ast.walk(n):
+                    if isinstance(a, ast.Attribute) and a.attr == name and isinstance(a.ctx, (ast.Store, ast.Del)):
+                        return False
+    return n_init > 0
+
+
+# ---------------------------------------------------------------------------------------------------------------
+# canonicalising rewrites (R1 .. R6)
+def count_name(fn, ident):
+    return len([n for n in ast.walk(fn) if isinstance(n, ast.Name) and n.id == ident])
+
+
+def canon(fn, cached_from=None):
+    """-> a copy of FunctionDef fn with R1, R2, R3, R4, R5 applied.  cached_from: the parameter/local holding a tracker,
+    whose frozen attributes may be cached in locals (R4)"""
+    fn = copy.deepcopy(fn)
+
+    # R5
+    def only_asserts(st):
+        return isinstance(st, ast.Assert) or (isinstance(st, ast.If) and not st.orelse and st.body and all(only_asserts(x) for x in st.body))
+
+    def strip(body):
+        out = []
+        for st in body:
+            if only_asserts(st):
+                continue
+            for fld in ("body", "orelse"):
+                if hasattr(st, fld) and isinstance(getattr(st, fld), list) and not isinstance(st, ast.FunctionDef):
+                    setattr(st, fld, strip(getattr(st, fld)))
+            out.append(st)
+        return out
+    fn.body = strip(fn.body)
+
+    # R1
+    class R1(ast.NodeTransformer):
+        def visit_If(self, node):
+            self.generic_visit(node)
+            t = node.test
+            while isinstance(t, ast.UnaryOp) and isinstance(t.op, ast.Not) and isinstance(t.operand, ast.UnaryOp) \
+                    and isinstance(t.operand.op, ast.Not):
+                t = t.operand.operand
+            node.test = t
+            return node
+    fn = R1().visit(fn)
+
+    # R3
+    class R3(ast.NodeTransformer):
+        def visit_Call(self, node):
+            self.generic_visit(node)
+            f = node.func
+            if isinstance(f, ast.Attribute) and f.attr == "get" and len(node.args) == 1 and not node.keywords \
+                    and isinstance(f.value, ast.Attribute) and isinstance(f.value.value, ast.Name) and f.value.value.id == "self" \
+                    and TYPED_REWRITES and is_dict_attr(f.value.attr):
+                node.args.append(ast.Constant(value=None))
+            return node
+    fn = R3().visit(fn)
+
+    # R4
+    if TYPED_REWRITES and cached_from and not any(isinstance(n, (ast.For, ast.While, ast.Try, ast.With)) for n in ast.walk(fn)):
+        params = [a.arg for a in fn.args.args]
+        binds = [n for n in ast.walk(fn) if isinstance(n, ast.Name) and n.id == cached_from and isinstance(n.ctx, (ast.Store, ast.Del))]
+        # the tracker variable is a parameter never re-bound, or a local bound exactly once (straight-line code: no loops)
+        ok_tracker = (cached_from in params and not binds) or (cached_from not in params and len(binds) == 1 and isinstance(binds[0].ctx, ast.Store))
+        bound_at = binds[0].lineno if binds else 0
+
+        def find_cache(body):
+            for i, st in enumerate(body):
+                if isinstance(st, ast.Assign) and len(st.targets) == 1 and isinstance(st.targets[0], ast.Name) \
+                        and isinstance(st.value, ast.Attribute) and isinstance(st.value.value, ast.Name) \
+                        and st.value.value.id == cached_from and st.lineno > bound_at:
+                    local, attr = st.targets[0].id, st.value.attr
+                    stores = [n for n in ast.walk(fn) if isinstance(n, ast.Name) and n.id == local and isinstance(n.ctx, (ast.Store, ast.Del))]
+                    uses_before = [n for n in ast.walk(fn) if isinstance(n, ast.Name) and n.id == local and n.lineno < st.lineno]
+                    if len(stores) == 1 and local not in params and not uses_before and is_frozen_tracker_attr(attr):
+                        return body, i, local, attr
+                for fld in ("body", "orelse"):
+                    sub = getattr(st, fld, None)
+                    if isinstance(sub, list) and not isinstance(st, ast.FunctionDef):
+                        r = find_cache(sub)
+                        if r:
+                            return r
+            return None
+        while ok_tracker:
+            r = find_cache(fn.body)
+            if not r:
+                break
+            body, i, local, attr = r
+
+            class Sub(ast.NodeTransformer):
+                def visit_Name(self, node):
+                    if node.id == local and isinstance(node.ctx, ast.Load):
+                        return ast.copy_location(ast.Attribute(value=ast.copy_location(ast.Name(id=cached_from, ctx=ast.Load()), node),
+                                                               attr=attr, ctx=ast.Load()), node)
+                    return node
+            body.pop(i)
+            fn = Sub().visit(fn)
+    # R2
+    def r2(body):
+        i = 0
+        while i + 1 < len(body):
+            a, b = body[i], body[i + 1]
+            if isinstance(a, ast.Assign) and len(a.targets) == 1 and isinstance(a.targets[0], ast.Name) \
+                    and isinstance(b, ast.If) and isinstance(b.test, ast.Name) and b.test.id == a.targets[0].id \
+                    and count_name(fn, a.targets[0].id) == 2:
+                b.test = a.value
+                body.pop(i)
+                continue
+            i += 1
+        for st in body:
+            for fld in ("body", "orelse"):
+                sub = getattr(st, fld, None)
+                if isinstance(sub, list) and not isinstance(st, ast.FunctionDef):
+                    r2(sub)
+    r2(fn.body)
+    ast.fix_missing_locations(fn)
+    return fn
+
+
+def resolve_method(mod, clsname, meth):
+    """the FunctionDef that `clsname().meth` denotes: the class's own, else its single base class's (same module)"""
+    cls = P.find_class(mod, clsname)
+    for st in cls.body:
+        if isinstance(st, ast.FunctionDef) and st.name == meth:
+            return st
+    if len(cls.bases) != 1:
+        raise P.Untranslatable("%s.%s: not defined and %d base classes" % (clsname, meth, len(cls.bases)))
+    base = ast.unparse(cls.bases[0])
+    if base == "object":
+        raise P.Untranslatable("%s.%s is not defined" % (clsname, meth))
+    return resolve_method(mod, base, meth)
+
+
+def inline_self_helpers(mod, clsname, fn):
+    """R6 on a copy of fn, read as a method of the concrete class clsname"""
+    fn = copy.deepcopy(fn)
+
+    class R6(ast.NodeTransformer):
+        def visit_Call(self, node):
+            self.generic_visit(node)
+            f = node.func
+            if TYPED_REWRITES and isinstance(f, ast.Attribute) and isinstance(f.value, ast.Name) and f.value.id == "self" and not node.args and not node.keywords:
+                name = f.attr
+                defs = []
+                for rel, m in package_modules():
+                    for n in ast.walk(m):
+                        if isinstance(n, ast.FunctionDef) and n.name == name:
+                            defs.append(n)
+                        if isinstance(n, ast.Attribute) and n.attr == name and isinstance(n.ctx, (ast.Store, ast.Del)):
+                            return node
+                        if isinstance(n, ast.ClassDef) and any(isinstance(st, ast.Assign) and any(isinstance(t, ast.Name) and t.id == name
+                                                                                              for t in st.targets) for st in n.body):
+                            return node
+                    if _uses_setattr_on(m, name):
+                        return node
+                if dynamic_store_may_hit(class_family((clsname,))):
+                    return node
+                if not defs:
+                    return node
+                for d in defs:
+                    b = body_stmts(d)
+                    if len(b) != 1 or not isinstance(b[0], ast.Return) or b[0].value is None or d.decorator_list \
+                            or [a.arg for a in d.args.args] != ["self"] or d.args.vararg or d.args.kwarg \
+                            or any(isinstance(x, ast.Name) and x.id != "self" and isinstance(x.ctx, ast.Store) for x in ast.walk(d)):
+                        return node
+                try:
+                    target = resolve_method(mod, clsname, name)
+                except P.Untranslatable:
+                    return node
+                return copy.deepcopy(body_stmts(target)[0].value)
+            return node
+    fn = R6().visit(fn)
+    ast.fix_missing_locations(fn)
+    return fn
 
 
 def expect(fnname, stmts, wanted):
@@ -45,7 +417,8 @@ DEAD_TEST = "self.ref is None or self.ref() is None"
 def getref_incr(mod, qual, proxyclass):
     """getRef: `if <dead>: ref = <proxyclass>(self); self.ref = weakref.ref(ref, self._refLost)`;
     `self.received_count += k`; `return self.ref()`  ->  Gallina text of the new received_count"""
-    f = P.find_def(mod, qual)
+    clsname, meth = qual.split(".")
+    f = canon(inline_self_helpers(mod, clsname, resolve_method(mod, clsname, meth)))
     st = body_stmts(f)
     if len(st) != 3 or not isinstance(st[0], ast.If) or st[0].orelse:
         raise P.Untranslatable("%s: expected `if dead: ...; received_count += 1; return self.ref()`" % qual)
@@ -129,7 +502,7 @@ def generate():
     expect("RemoteReferenceTracker._refLost", body_stmts(rl), ["eventually(self._handleRefLost)"])
 
     # ---- _handleRefLost
-    h = P.find_def(ref, "RemoteReferenceTracker._handleRefLost")
+    h = canon(inline_self_helpers(ref, "RemoteReferenceTracker", P.find_def(ref, "RemoteReferenceTracker._handleRefLost")))
     st = body_stmts(h)
     if len(st) != 1 or not isinstance(st[0], ast.If) or st[0].orelse or ast.unparse(st[0].test) != DEAD_TEST:
         raise P.Untranslatable("_handleRefLost: expected a single `if %s:`" % DEAD_TEST)
@@ -167,7 +540,7 @@ def generate():
             raise P.Untranslatable("Broker.freeYourReference no longer contains: " + frag)
 
     # ---- Broker.freeYourReferenceTracker
-    ft = P.find_def(bro, "Broker.freeYourReferenceTracker")
+    ft = canon(P.find_def(bro, "Broker.freeYourReferenceTracker"), cached_from="tracker")
     st = body_stmts(ft)
     if len(st) != 3 or not all(isinstance(s, ast.If) and not s.orelse for s in st):
         raise P.Untranslatable("freeYourReferenceTracker: expected three `if` statements")
@@ -194,9 +567,9 @@ def generate():
         raise P.Untranslatable("freeYourReferenceTracker: unexpected deletion from yourReferenceByCLID: " + ast.unparse(st[1]))
 
     # ---- Broker.getTrackerForYourReference: lookup by clid, create + register when absent
-    gy = P.find_def(bro, "Broker.getTrackerForYourReference")
-    st = body_stmts(gy)
-    if len(st) != 4 or ast.unparse(st[1]) != "tracker = self.yourReferenceByCLID.get(clid)" \
+    gy = canon(P.find_def(bro, "Broker.getTrackerForYourReference"))
+    st = [None] + body_stmts(gy)          # (assert-only statements are dropped by R5)
+    if len(st) != 4 or ast.unparse(st[1]) not in ("tracker = self.yourReferenceByCLID.get(clid)", "tracker = self.yourReferenceByCLID.get(clid, None)") \
             or not isinstance(st[2], ast.If) or ast.unparse(st[2].test) != "not tracker" or st[2].orelse \
             or ast.unparse(st[3]) != "return tracker":
         raise P.Untranslatable("getTrackerForYourReference: unexpected shape")
@@ -211,9 +584,9 @@ def generate():
         raise P.Untranslatable("ReferenceUnslicer.receiveClose: unexpected shape")
 
     # ---- Broker.getTrackerForMyReference: lookup by puid; fresh clid from nextCLID; registered in both tables
-    gm = P.find_def(bro, "Broker.getTrackerForMyReference")
+    gm = canon(P.find_def(bro, "Broker.getTrackerForMyReference"))
     st = body_stmts(gm)
-    if len(st) != 3 or ast.unparse(st[0]) != "tracker = self.myReferenceByPUID.get(puid)" \
+    if len(st) != 3 or ast.unparse(st[0]) not in ("tracker = self.myReferenceByPUID.get(puid)", "tracker = self.myReferenceByPUID.get(puid, None)") \
             or not isinstance(st[1], ast.If) or ast.unparse(st[1].test) != "not tracker" or st[1].orelse \
             or ast.unparse(st[2]) != "return tracker":
         raise P.Untranslatable("getTrackerForMyReference: unexpected shape")
@@ -234,11 +607,11 @@ def generate():
         raise P.Untranslatable("newRequestID: unexpected shape")
 
     # ---- Broker.remote_decref
-    rd = P.find_def(bro, "Broker.remote_decref")
+    rd = canon(P.find_def(bro, "Broker.remote_decref"), cached_from="tracker")
     st = body_stmts(rd)
     expect("Broker.remote_decref", st,
-           ["tracker = self.myReferenceByCLID.get(clid, None)", "if not tracker:\n    return", "done = tracker.decref(count)",
-            "if done:\n    del self.myReferenceByPUID[tracker.puid]\n    del self.myReferenceByCLID[clid]"])
+           ["tracker = self.myReferenceByCLID.get(clid, None)", "if not tracker:\n    return",
+            "if tracker.decref(count):\n    del self.myReferenceByPUID[tracker.puid]\n    del self.myReferenceByCLID[clid]"])
 
     # ---- your-reference and call targets are resolved through the export table, by clid
     gc_ = P.find_def(bro, "Broker.getMyReferenceByCLID")
@@ -315,6 +688,18 @@ def generate():
                and ast.unparse(s.targets[0]).startswith("self.") and isinstance(s.value, ast.Dict) and not s.value.keys]
     for t in ("myReferenceByPUID", "myReferenceByCLID", "yourReferenceByCLID", "yourReferenceByURL"):
         out.append("Definition finish_clears_%s : bool := %s." % (t, "true" if t in cleared else "false"))
+    # finish() also drops the inbound calls that were parsed but never run, with their activeLocalCalls entries
+    # (fix 30b3768): `for (delivery, ready_deferred) in self.inboundDeliveryQueue: self.activeLocalCalls.pop(delivery.reqID, None)`
+    # followed (anywhere later at top level of finish) by `self.inboundDeliveryQueue = []`
+    top = [ast.unparse(s) for s in fi.body]
+    pops = [i for i, t in enumerate(top) if t in (
+        "for delivery, ready_deferred in self.inboundDeliveryQueue:\n    self.activeLocalCalls.pop(delivery.reqID, None)",
+        "for (delivery, ready_deferred) in self.inboundDeliveryQueue:\n    self.activeLocalCalls.pop(delivery.reqID, None)")]
+    empt = [i for i, t in enumerate(top) if t == "self.inboundDeliveryQueue = []"]
+    drops = len(pops) == 1 and len(empt) == 1 and pops[0] < empt[0]
+    if not drops and any("inboundDeliveryQueue" in t or "activeLocalCalls" in t for t in top):
+        raise P.Untranslatable("Broker.finish: unrecognised handling of inboundDeliveryQueue / activeLocalCalls")
+    out.append("Definition finish_drops_undelivered_calls : bool := %s." % ("true" if drops else "false"))
     cl = P.find_def(bro, "Broker.connectionLost")
     if "self.finish(why)" not in [ast.unparse(s) for s in cl.body]:
         raise P.Untranslatable("Broker.connectionLost no longer calls self.finish(why)")
